@@ -226,3 +226,17 @@ def run(ctx):
     v = ctx.judge("Proximity_Trace", [strip(c) for c in cases], name="compiled_sample", stateful=True,
                   workers=2)
     handle(ctx, cases, v, "compiled")
+
+
+META = {
+    "technique": "TLA+ model of the four-sweep propagation checked exhaustively by TLC over all target layouts; "
+                 "real-code step traces validated against the same SweepLine action; outputs judged by TLC",
+    "level_text": "TLC explores every target layout of the listed small grids on Proximity.tla (P1-P7 as invariants, "
+                  "negative twins rejected); every one of those layouts and seeded larger rasters are run through the "
+                  "real proximity/allocation/direction with every line sweep logged, and Proximity_Trace.tla checks "
+                  "each logged step against the model and P1-P7 on the observed outputs. Exhaustive on the small "
+                  "scope, sampled beyond it.",
+    "level_note": "Trusted: TLC; the float bridge (squared distances must be lattice values within 1e-4, bearings "
+                  "within 2e-3 deg of the formula); interpreted mode (NUMBA_DISABLE_JIT=1) running the same source as "
+                  "the compiled code (cross-checked by a compiled sample); max_distance restricted to off-lattice values.",
+}
